@@ -2,7 +2,8 @@
 //
 // Case format (line oriented, this is the replay file):
 //   tree <type 0=BST 1=RB 2=AVL> <cmp 0=natural 1=reversed 2=mod> <ctor 0=new 1=with_data 2=full>
-//        <notif bit0=key notifier bit1=value notifier bit2=no comparator data bit3=key 0 is the NULL pointer> <universe>
+//        <notif bit0=key notifier bit1=value notifier bit2=no comparator data bit3=key 0 is the NULL pointer
+//               bit4=the values of keys k with k % 3 == 1 are NULL pointers (a tree used as a set; only without a value notifier)> <universe>
 //   i <k>            insert fresh key object + fresh value object for key k
 //   I <k>            insert a fresh key object for key k together with the value object that is stored for k right now (a value
 //                    inserted a second time: the notifier is owed one call for the insertion that ends here); like i if k is absent
@@ -52,7 +53,7 @@ struct Case {
 std::ostream &operator<<(std::ostream &os, const Op &o) {
   os << o.kind;
   switch (o.kind) {
-  case 'i': case 'I': case 'r': case 'l': case 'f': os << ' ' << o.a; break;
+  case 'i': case 'I': case 'F': case 'r': case 'l': case 'f': os << ' ' << o.a; break;
   case 'B': os << ' ' << o.a << ' ' << o.b << ' ' << o.c << ' ' << o.d; break;
   case 'D': case 'G': case 'H': os << ' ' << o.a << ' ' << o.b; break;
   default: break;
@@ -137,6 +138,12 @@ struct LogEnt { int id; int kind; };
 vector<LogEnt> g_log;
 bool g_free_on_destroy = false;
 string g_destroy_error;
+// op F: an insert during which every library allocation fails (p_mem_set_vtable): a new key is silently not stored (p_tree_insert has no
+// result), an equal key is replaced as usual (no allocation needed) - either way it is "an operation on the tree" after which C12/C13/C14 hold
+bool g_fail_alloc = false; bool g_vtable_set = false; long g_failed_allocs = 0;
+ppointer ft_malloc(psize n) { if (g_fail_alloc) { g_failed_allocs++; return NULL; } return malloc(n); }
+ppointer ft_realloc(ppointer p, psize n) { if (g_fail_alloc) { g_failed_allocs++; return NULL; } return realloc(p, n); }
+void ft_free(ppointer p) { free(p); }
 void *g_keep_obj = nullptr;   // op I: this value object is being replaced BY ITSELF - the notifier call is logged, the object lives on
 
 void destroy_common(void *p, int kind) {
@@ -210,6 +217,8 @@ struct Runner {
 
   bool has_kd() const { return cs.ctor == 2 && (cs.notif & 1); }
   bool has_vd() const { return cs.ctor == 2 && (cs.notif & 2); }
+  // a NULL value is a legal value ("lookup returns the current value or NULL" cannot tell it from an absent key, everything else can)
+  bool null_value(int k) const { return (cs.notif & 16) && !has_vd() && k % 3 == 1; }
 
   void fail(const string &p, const string &klass, const string &msg) {
     if (!verdict.empty() || foreign) return;
@@ -372,11 +381,23 @@ struct Runner {
     for (auto &p : got) destroyed_ids.insert(p.first);
   }
 
-  void do_insert(int k) {
-    Obj *ko = mk(k, 0), *vo = mk(k, 1);
+  void do_insert(int k, bool failing = false) {
+    if (failing && model.find(k) == model.end()) {
+      Obj *ko = mk(k, 0), *vo = mk(k, 1);
+      if (ko) { all[ko->id] = ko; owned.push_back(ko); }
+      all[vo->id] = vo; owned.push_back(vo);
+      long f0 = g_failed_allocs;
+      g_fail_alloc = true; p_tree_insert(tree, ko, vo); g_fail_alloc = false;
+      if (g_failed_allocs == f0) { vl::stats().count("failing_insert_made_no_allocation"); }
+      vl::stats().klass("insert_of_new_key_with_failing_allocation");
+      check_log({}, "insert(new key, allocation failed)");   // the pair was not stored: the caller keeps both objects, the model is unchanged
+      return;
+    }
+    if (failing) vl::stats().klass("replace_with_failing_allocation");
+    Obj *ko = mk(k, 0), *vo = null_value(k) ? NULL : mk(k, 1);
     int kid = ko ? ko->id : next_id++;
     if (ko) all[ko->id] = ko; else vl::stats().klass("null_key_inserted");
-    all[vo->id] = vo;
+    if (vo) all[vo->id] = vo; else vl::stats().klass("null_value_inserted");
     std::set<std::pair<int, int>> expect;
     auto it = model.find(k);
     if (it != model.end()) {
@@ -385,9 +406,9 @@ struct Runner {
       if (has_vd()) expect.insert({it->second.vid, 1}); else owned.push_back(it->second.v);
       if (pending_two_child) saw_touch_after_two_child = true;
     }
-    p_tree_insert(tree, ko, vo);
+    g_fail_alloc = failing; p_tree_insert(tree, ko, vo); g_fail_alloc = false;
     if (!ko) g_null_kid = kid;   // (a replaced NULL key was logged under the old id during the call)
-    model[k] = Ent{ko, vo, kid, vo->id};
+    model[k] = Ent{ko, vo, kid, vo ? vo->id : -1};
     // std::map::operator[] keeps the old key (int) - fine, key ints are equal
     check_log(expect, "insert");
     max_n = std::max(max_n, (int)model.size());
@@ -434,6 +455,7 @@ struct Runner {
     Obj probe{MAGIC_KEY, 0, k, 0};
     pboolean r = p_tree_remove(tree, &probe);
     bool existed = it != model.end();
+    if (existed && !it->second.v) vl::stats().klass("remove_of_a_key_with_NULL_value");
     if ((r == TRUE) != existed) { fail("C12", "remove-result", "remove(" + std::to_string(k) + ") returned " + (r ? "TRUE" : "FALSE") + " but key " + (existed ? "existed" : "did not exist")); }
     if (existed) model.erase(it);
     if (stop()) return;
@@ -532,6 +554,7 @@ struct Runner {
     g_ctx.mode = cs.cmp; g_ctx.m = 7; g_ctx.tag = 0;
     g_cmp_error.clear(); g_destroy_error.clear(); g_log.clear(); g_trace = nullptr;
     g_nullkey = (cs.notif & 8) != 0; g_null_kid = -1;
+    if (!g_vtable_set) { PMemVTable vt; vt.f_malloc = ft_malloc; vt.f_realloc = ft_realloc; vt.f_free = ft_free; g_vtable_set = p_mem_set_vtable(&vt) == TRUE; }
     g_free_on_destroy = (prop == "C14");
     PTreeType tt = cs.type == 0 ? P_TREE_TYPE_BINARY : cs.type == 1 ? P_TREE_TYPE_RB : P_TREE_TYPE_AVL;
     if (cs.ctor == 0) tree = p_tree_new(tt, cmp2);
@@ -548,6 +571,7 @@ struct Runner {
       switch (o.kind) {
       case 'i': do_insert(((o.a % U) + U) % U); after_mutation(); break;
       case 'I': do_reinsert_same_value(((o.a % U) + U) % U); after_mutation(); break;
+      case 'F': do_insert(((o.a % U) + U) % U, true); after_mutation(); break;
       case 'r': do_remove(((o.a % U) + U) % U); after_mutation(); break;
       case 'l': lookup_check(((o.a % U) + U) % U); if (pending_two_child) saw_touch_after_two_child = true; break;
       case 'f': do_foreach(o.a); if (!stop()) scan(false); break;
@@ -662,6 +686,7 @@ rc::Gen<Op> genOp(int U, bool shapes) {
   auto ins = gen::map(key, [](int k) { Op o; o.kind = 'i'; o.a = k; return o; });
   auto rem = gen::map(key, [](int k) { Op o; o.kind = 'r'; o.a = k; return o; });
   auto reins = gen::map(key, [](int k) { Op o; o.kind = 'I'; o.a = k; return o; });
+  auto fins = gen::map(key, [](int k) { Op o; o.kind = 'F'; o.a = k; return o; });
   auto look = gen::map(key, [](int k) { Op o; o.kind = 'l'; o.a = k; return o; });
   auto fe = gen::map(gen::weightedOneOf<int>({{2, gen::just(-1)}, {3, rng(0, 4)}, {2, rng(0, std::min(U, 80))}}),
                      [](int s) { Op o; o.kind = 'f'; o.a = s; return o; });
@@ -671,13 +696,13 @@ rc::Gen<Op> genOp(int U, bool shapes) {
   auto brem = gen::map(gen::tuple(rng(0, 5), rng(1, U > 64 ? 200 : U + 1)),
                        [](const std::tuple<int, int> &t) { Op o; o.kind = 'D'; o.a = std::get<0>(t); o.b = std::get<1>(t); return o; });
   if (shapes)
-    return gen::weightedOneOf<Op>({{30, ins}, {30, rem}, {3, look}, {3, fe}, {1, clr}, {8, bulk}, {10, brem}, {2, reins}});
-  return gen::weightedOneOf<Op>({{40, ins}, {28, rem}, {8, look}, {12, fe}, {2, clr}, {4, bulk}, {4, brem}, {5, reins}});
+    return gen::weightedOneOf<Op>({{30, ins}, {30, rem}, {3, look}, {3, fe}, {1, clr}, {8, bulk}, {10, brem}, {2, reins}, {4, fins}});
+  return gen::weightedOneOf<Op>({{40, ins}, {28, rem}, {8, look}, {12, fe}, {2, clr}, {4, bulk}, {4, brem}, {5, reins}, {3, fins}});
 }
 
 rc::Gen<Case> genCase(const string &prop) {
   using namespace rc;
-  return gen::mapcat(gen::tuple(rng(0, 3), rng(0, 3), gen::weightedElement<int>({{2, 0}, {2, 1}, {6, 2}}), rng(0, 16),
+  return gen::mapcat(gen::tuple(rng(0, 3), rng(0, 3), gen::weightedElement<int>({{2, 0}, {2, 1}, {6, 2}}), rng(0, 32),
                                 gen::weightedElement<int>({{3, 3}, {4, 8}, {4, 64}, {2, 5000}})),
                      [prop](const std::tuple<int, int, int, int, int> &t) {
                        Case base;
@@ -761,6 +786,7 @@ void exhaustive_seqs(const string &prop, int maxlen, long shard, long nshards) {
         exec_and_record("exh_seq", c, prop, false);
         if (g_failed) return;
         if (prop == "C14") { c.notif = 11; exec_and_record("exh_seq", c, prop, false); if (g_failed) return; }   // the same with key 0 = the NULL pointer
+        if (prop == "C12") { c.notif = 17; exec_and_record("exh_seq", c, prop, false); if (g_failed) return; }   // the same with key 1 carrying a NULL value
       }
     }
   }
@@ -821,12 +847,12 @@ extern "C" int LLVMFuzzerTestOneInput(const uint8_t *data, size_t size) {
   FuzzedDataProvider fdp(data, size);
   static const std::string prop = vl::env("VERIF_PROP", "C12");
   Case c;
-  c.type = fdp.ConsumeIntegralInRange<int>(0, 2); c.cmp = fdp.ConsumeIntegralInRange<int>(0, 2); c.ctor = fdp.ConsumeIntegralInRange<int>(0, 2); c.notif = fdp.ConsumeIntegralInRange<int>(0, 15);
+  c.type = fdp.ConsumeIntegralInRange<int>(0, 2); c.cmp = fdp.ConsumeIntegralInRange<int>(0, 2); c.ctor = fdp.ConsumeIntegralInRange<int>(0, 2); c.notif = fdp.ConsumeIntegralInRange<int>(0, 31);
   static const int us[] = {3, 8, 64, 5000}; c.universe = us[fdp.ConsumeIntegralInRange<int>(0, 3)];
   if (prop == "C13" && c.type == 0) c.type = 1; if (prop == "C14") c.ctor = 2;
   while (fdp.remaining_bytes() > 0 && c.ops.size() < 400) {
-    static const char kinds[] = {'i', 'i', 'i', 'r', 'r', 'l', 'f', 'c', 'B', 'D'};
-    Op o; o.kind = kinds[fdp.ConsumeIntegralInRange<int>(0, 9)];
+    static const char kinds[] = {'i', 'i', 'i', 'r', 'r', 'l', 'f', 'c', 'B', 'D', 'F', 'I'};
+    Op o; o.kind = kinds[fdp.ConsumeIntegralInRange<int>(0, 11)];
     o.a = fdp.ConsumeIntegralInRange<int>(o.kind == 'f' ? -1 : 0, o.kind == 'B' || o.kind == 'D' ? 4 : (c.universe > 64 ? 5000 : c.universe));
     if (o.kind == 'B') { o.b = fdp.ConsumeIntegralInRange<int>(0, c.universe); o.c = fdp.ConsumeIntegralInRange<int>(1, 300); o.d = fdp.ConsumeIntegralInRange<int>(1, 3); }
     if (o.kind == 'D') o.b = fdp.ConsumeIntegralInRange<int>(1, 200);
